@@ -133,6 +133,20 @@ func writeEvidence(id, tier string, seed uint64, p *propInfo, a *aggregate, det 
 				un[fn] = fmt.Sprintf("%d/%d", m, tot[fn])
 			}
 			cov["go_cose_statements_reached"].(map[string]any)["never_executed_by_function"] = un
+			if d := os.Getenv("VERIF_SITES_DIR"); d != "" {
+				// side output for tools/sites_union.py: the statements this check executed
+				var hit []string
+				for i := 1; i < len(siteTable); i++ {
+					if a.sites[i] {
+						hit = append(hit, siteTable[i])
+					}
+				}
+				os.MkdirAll(d, 0o755)
+				os.WriteFile(filepath.Join(d, id+".txt"), []byte(strings.Join(hit, "\n")+"\n"), 0o644)
+				var all []string
+				all = append(all, siteTable[1:]...)
+				os.WriteFile(filepath.Join(d, "ALL.txt"), []byte(strings.Join(all, "\n")+"\n"), 0o644)
+			}
 		}
 	}
 	if len(a.skips) > 0 {
